@@ -93,10 +93,27 @@ def run(facts, rep, ctx):
     if fe is None:
         rep.missing(rule, key, 'forward_ext not found')
     else:
+        # BiInterval::swapped may be a helper or written in place: analyse it in place
+        from . import inline
+        fe = inline.inlined(facts, fe, lambda pth: pth.rsplit('::', 1)[-1] in ('forward_ext', 'backward_ext', 'smems', 'all_smems'))
         rep.analysed_body(fe)
         names = [call_info(t)['fn'] for _bb, t in fe.calls() if call_info(t)]
-        sw = sum(1 for n in names if n.endswith('BiInterval::swapped'))
-        if 'alphabets::dna::complement' in names and sw == 2 and any(n.endswith('::backward_ext') for n in names):
+        crossed = []
+        for bb in fe.reachable(0):
+            for st in fe.stmts(bb):
+                if st['k'] == 'assign' and st['r']['k'] == 'agg' and (st['r'].get('adt') or '').endswith('fmindex::BiInterval'):
+                    f = dict(zip(st['r']['fields'], [fmt(strip(fe.expr_operand(o, inline_user=True))) for o in st['r']['ops']]))
+                    ok = f.get('lower', '').endswith('.lower_rev') and f.get('lower_rev', '').endswith('.lower') and \
+                        f.get('size', '').endswith('.size') and f.get('match_size', '').endswith('.match_size')
+                    src = 'result' if 'backward_ext' in f.get('lower', '') else 'argument'
+                    crossed.append((src, ok))
+        be_calls = [t for _bb, t in fe.calls() if call_info(t) and call_info(t)['fn'].endswith('::backward_ext')]
+        comp_ok = False
+        for t in be_calls:
+            e = strip(fe.expr_operand(t['args'][2], inline_user=True)) if len(t['args']) > 2 else None
+            comp_ok = comp_ok or (e is not None and e[0] == 'call' and e[1] == 'alphabets::dna::complement')
+        if sorted(crossed) == [('argument', True), ('result', True)] and comp_ok and len(be_calls) == 1:
             rep.ok(rule, key, '%s:%s' % (fe.file, fe.line), 'backward_ext(swapped, complement(a)).swapped()')
         else:
-            rep.bad(rule, key, '%s:%s' % (fe.file, fe.line), 'forward_ext is not the swapped backward extension by the complement (calls %s)' % names)
+            rep.bad(rule, key, '%s:%s' % (fe.file, fe.line), 'forward_ext is not the swapped backward extension by the complement '
+                                                             '(interval literals %s, complement symbol: %s, calls %s)' % (crossed, comp_ok, names))
